@@ -823,9 +823,15 @@ def glue_trio() -> None:
         else:  # pragma: no cover
             return None
 
-        # Find the system task that matches this call
+        # Find the system task that matches this call. It was started with the
+        # message's context, but Trio swaps another context in while the task
+        # serves a reentrant from_thread.run() call of its own; its coroutine
+        # is message.run_system() throughout.
         for task in runner.system_nursery.child_tasks:
             if task.context is message.context:
+                return task
+            task_frame = getattr(task.coro, "cr_frame", None)
+            if task_frame is not None and task_frame.f_locals.get("self") is message:
                 return task
         return None
 
